@@ -42,6 +42,7 @@ theorem deadline_respected {env : Env} {s s' : State} {op : Op} {r : Resp} (h : 
     simp only [Spec.opDeadline, Option.some.injEq] at hop; subst hop
     exact notPast_of_not_pastDeadline _ _ _ hdl F.dlPos F.notExpired
   | send _ _ _ _ => simp [Spec.opDeadline] at hop
+  | autoSwap _ _ _ _ => simp [Spec.opDeadline] at hop
   | setParams _ => simp [Spec.opDeadline] at hop
   | setTime _ _ => simp [Spec.opDeadline] at hop
 
